@@ -102,6 +102,8 @@ type Layout struct {
 	Filters   [][]string `json:"filters,omitempty"`
 	Predictor bool       `json:"predictor,omitempty"` // Flate stages use PNG predictor 12, Columns 4 (data padded with blanks)
 	TIFFPred  bool       `json:"tiff_pred,omitempty"` // with Predictor: TIFF predictor 2, Columns 8, instead of PNG predictor 12
+	// PredColors (with Predictor, without TIFFPred): 0 = one component per sample; 2..4 = /Predictor 15 /Colors n
+	PredColors int `json:"pred_colors,omitempty"`
 	// Length: "direct", "before" (indirect, the integer object precedes the stream in the file),
 	// "after" (follows it) — §7.3.8.2 allows an indirect /Length.
 	Length         string `json:"length,omitempty"`
@@ -219,6 +221,8 @@ type (
 		Chain []string
 		Pred  bool
 		Pred2 bool // TIFF predictor 2 instead of PNG predictor 12
+		// PredColors > 1 (with Pred, without Pred2): PNG predictor 15 over samples of that many components (/Colors)
+		PredColors int
 		// Array1: a single filter is written as a one-element array
 		Array1 bool
 		// NoIndirectLength forces a direct /Length (object streams and xref streams, §7.5.7/§7.5.8.2).
